@@ -353,7 +353,7 @@ func refInflate(in, dict []byte, limit int) (out []byte, used int, err error) {
 		dict = dict[len(dict)-32768:] // distances cannot exceed 32768: older bytes are unreachable
 	}
 	z := &inflater{in: in, limit: limit, dictLen: len(dict)}
-	z.hist = make([]byte, len(dict), len(dict)+1024)
+	z.hist = make([]byte, len(dict), len(dict)+limit)
 	copy(z.hist, dict)
 	for {
 		hdr, err := z.bits(3)
